@@ -87,7 +87,7 @@ fn bounds(prop: &str, tier: Tier) -> Bounds {
             start_depth: if q { 4 } else { 6 },
             perft_depth: if q { 2 } else { 4 },
             scenario_depth: if q { 2 } else { 3 },
-            families: if q { vec![(PawnPush, 0, true), (PromoPin, 0, true), (Ep, 0, false), (EpPlayed, 0, true), (Castle, 0, false), (Promo, 0, false)] } else { thorough_families },
+            families: if q { vec![(PawnPush, 0, true), (PromoPin, 0, true), (Three, 0, false), (Ep, 0, false), (EpPlayed, 0, true), (Castle, 0, false), (Promo, 0, false)] } else { thorough_families },
             sweep_stride: 64,
         },
         "C02" => Bounds {
@@ -105,7 +105,7 @@ fn bounds(prop: &str, tier: Tier) -> Bounds {
             start_depth: if q { 4 } else { 6 },
             perft_depth: if q { 2 } else { 4 },
             scenario_depth: if q { 2 } else { 3 },
-            families: if q { vec![(PawnPush, 0, true), (PromoPin, 0, true), (EpCheck, 0, true), (PromoCheck, 0, true), (Castle, 0, true)] } else { thorough_families },
+            families: if q { vec![(PawnPush, 0, true), (PromoPin, 0, true), (Three, 0, false), (EpCheck, 0, true), (PromoCheck, 0, true), (Castle, 0, true)] } else { thorough_families },
             sweep_stride: 64,
         },
         "C04" => Bounds {
@@ -157,7 +157,7 @@ pub fn run(prop: &str, args: &Args) -> i32 {
     // families
     let mut fam_json = vec![];
     for (fam, level, children) in &b.families {
-        if reduced() && matches!(*fam, Family::Promo | Family::Ep | Family::EpPlayed | Family::PromoCheck) {
+        if reduced() && (matches!(*fam, Family::Promo | Family::Ep | Family::EpPlayed | Family::PromoCheck) || (*fam == Family::Three && prop == "C01")) {
             continue;
         }
         let mut child_props = props;
